@@ -290,15 +290,15 @@ fn lattice(ctx: &Ctx, st: &mut Stats, side: usize, hi: f64, chk: fn(&Case, &mut 
 }
 
 pub fn run_c04(ctx: &Ctx, st: &mut Stats) -> Vec<Violation> {
-    let mut v = run_proptest(ctx, st, "random", ctx.cases(100_000, 1_000_000), strategy, check_c04);
+    let mut v = run_proptest(ctx, st, "random", ctx.cases(100_000, 10_000_000), strategy, check_c04);
     if !v.is_empty() {
         return v;
     }
-    v.extend(lattice(ctx, st, if ctx.light { 32 } else { ctx.pick(96, 200) }, 4.0, check_c04));
+    v.extend(lattice(ctx, st, if ctx.light { 32 } else { ctx.pick(96, 320) }, 4.0, check_c04));
     v
 }
 pub fn run_c05(ctx: &Ctx, st: &mut Stats) -> Vec<Violation> {
-    let mut v = run_proptest(ctx, st, "random", ctx.cases(100_000, 1_000_000), strategy, check_c05);
+    let mut v = run_proptest(ctx, st, "random", ctx.cases(100_000, 10_000_000), strategy, check_c05);
     if !v.is_empty() {
         return v;
     }
